@@ -1250,6 +1250,15 @@ Error query_rw_info(Arch arch, const BaseInst& inst, const Operand_* operands, s
       //   2. Multiplication with imm: 'A = B * C'.
       //   3. Extended multiplication: 'A:B = B * C'.
 
+      if (op_count == 1) {
+        // Implicit form of the extended multiplication 'imul r/m' (xDX:xAX or AX are not operands here).
+        out->_operands[0].reset(R | RegM, operands[0].x86_rm_size());
+        if (operands[0].is_mem()) {
+          out->_operands[0].add_op_flags(MibRead);
+        }
+        return Error::kOk;
+      }
+
       if (op_count == 2) {
         if (operands[0].is_reg() && operands[1].is_imm()) {
           out->_operands[0].reset(X, operands[0].as<Reg>().size());
